@@ -215,7 +215,7 @@ fn successor(f: &Fields, unit: u8) -> Option<Fields> {
 pub fn run(ctx: &Ctx) -> Outcome {
     let mut out = Outcome::new(
         "Field tuples: (a) all month 0..=255 x day 0..=255 x 10 year classes with a valid time; single-field boundary perturbations; the excluded maximum and its neighbours; \
-         (b) every day of the 400-year cycle at fixed + random eras x times {00:00:00, 23:59:59, 23:59:60, random}; (c) proptest: valid fields, perturbed fields, pairs (date, successor by 1 s / 1 day / next month / next year; random pairs). \
+         (b) every day of the 400-year cycle at fixed + random eras x times {00:00:00, 23:59:59, 23:59:60, random}; (b') EVERY 400-year era of the i32 range x its four century years and a rotating year x {28 Feb 23:59:60, 29 Feb, 1 Mar}; (c) proptest: valid fields, perturbed fields, pairs (date, successor by 1 s / 1 day / next month / next year; random pairs). \
          Non-trivial: year within 2 of a century or within 4 of 1970, first/last day of a month, 28-30 Feb, second 60, rejected because of exactly one field, the excluded maximum; pairs closer than a year. \
          Enumerated cases are distinct by construction; random ones are counted by distinct hash.",
     );
@@ -275,6 +275,36 @@ pub fn run(ctx: &Ctx) -> Outcome {
     out.absorb_all(rs);
     if out.failure.is_some() {
         return out;
+    }
+    // every 400-year era of the i32 year range x {the three non-leap century years, the leap one, a year rotating with the era index} x
+    // {28 Feb 23:59:60, 29 Feb, 1 Mar}: a calendar shortcut valid only in a band of years cannot hide between the sampled eras
+    {
+        let elo = cal::fdiv(i32::MIN as i64, 400);
+        let ehi = cal::fdiv(i32::MAX as i64, 400);
+        let n = 256u64;
+        let span = (ehi - elo + 1) as u64;
+        let rs = par_shards(n, |shard, st| {
+            let lo = elo + (span * shard / n) as i64;
+            let hi = elo + (span * (shard + 1) / n) as i64;
+            for era in lo..hi {
+                for r in [100i64, 200, 300, 0, cal::fmod(era * 37, 400)] {
+                    let y = era * 400 + r;
+                    if y < i32::MIN as i64 || y > i32::MAX as i64 {
+                        continue;
+                    }
+                    for (mo, d, h, mi, s) in [(2u8, 28u8, 23u8, 59u8, 60u8), (2, 29, 12, 0, 0), (3, 1, 0, 0, 0)] {
+                        let f = Fields { y: y as i32, mo, d, h, mi, s, ns: 3 };
+                        check_enum("fields", &f, st, |c, st| check_fields(c, st, true))?;
+                    }
+                }
+            }
+            st.class_n("eras_swept", (hi - lo) as u64);
+            Ok(())
+        });
+        out.absorb_all(rs);
+        if out.failure.is_some() {
+            return out;
+        }
     }
     // both extreme years x every month byte x every day byte x times around the excluded maximum (validation order must not matter)
     let rs = par_shards(2, |shard, st| {
